@@ -56,6 +56,8 @@ OBJECTS = {'M3': _m3, 'Q2': _q2, 'P2': _p2, 'Pr2': _pr2, 'S3dd': _s3dd, 'S23bm':
 DERIVED = {'plus1': lambda a: a + 1, 'minus1': lambda a: a - 1, 'times2': lambda a: a * 2, 'div2': lambda a: a / 2,
            'floordiv2': lambda a: a // 2, 'mod2': lambda a: a % 2, 'div0': lambda a: a / 0}
 QUERIES = ['q:antimask', 'q:corners', 'q:slicer', 'q:wod', 'q:count', 'shun:arr', 'shun:F', 'shun:T', 'unheld',
+           # entirely masked results / nothing selected, with and without shape=
+           'shun:arr:ns', 'shun:F:ns', 'shun:am0', 'shun:am0:ns', 'shun:amm', 'shun:amm:ns', 'unheld:ns',
            'q:median', 'holdw', 'q:heldw'] + ['q:' + k for k in DERIVED]
 ARITH = ['iadd', 'isub', 'imul', 'itruediv', 'ifloordiv', 'imod', 'ipow']
 LOGIC = ['iand', 'ior', 'ixor']
@@ -70,7 +72,7 @@ MUTS = ([o + ':' + k for o in ARITH for k in ('num', 'arr', 'obj', 'objm', 'objT
         ['set:sl:bad', 'set:sl:badT', 'set:sl:badm', 'set:bm:badT', 'iadd:bad', 'iadd:badT', 'isub:badarr', 'imul:bad',
          'itruediv:badT', 'iand:bad'] +
         ['insd:t', 'insd:u', 'insds', 'deld:t', 'deld:zz', 'delds', 'delds:pt',
-         'units:km', 'units:none', 'units:sec', 'ro', 'ro:nr', 'hold:arr'] +
+         'units:km', 'units:none', 'units:sec', 'ro', 'ro:nr', 'hold:arr', 'hold:am0', 'hold:amm'] +
         # non-default argument forms (the override forms also work on a read-only object)
         ['deld:t:o', 'delds:o', 'units:km:o', 'insd:t:no', 'insds:o'])
 
@@ -102,12 +104,12 @@ ALPHABET = {n: _alphabet(n) for n in OBJECTS}
 
 _CQ = ['q:antimask', 'q:corners', 'q:slicer', 'q:wod']
 COMPACT = {
-    'S3m': _CQ + ['set:sl:badT', 'iadd:bad', 'iadd:num', 'imul:objm', 'set:0:masked', 'set:sl:obj', 'insd:t', 'units:km', 'ro', 'shun:arr', 'q:times2'],
-    'S3': _CQ + ['set:sl:badT', 'set:sl:badm', 'isub:arr', 'itruediv:zero', 'imod:objm', 'imod:objz', 'ifloordiv:arrz', 'set:bm:num', 'set:mi:num', 'insd:t', 'deld:t', 'hold:arr', 'unheld', 's:insd', 's:units:o'],
+    'S3m': _CQ + ['set:sl:badT', 'iadd:bad', 'iadd:num', 'imul:objm', 'set:0:masked', 'set:sl:obj', 'insd:t', 'units:km', 'ro', 'shun:arr', 'shun:amm:ns', 'shun:am0:ns', 'q:times2'],
+    'S3': _CQ + ['set:sl:badT', 'set:sl:badm', 'isub:arr', 'itruediv:zero', 'imod:objm', 'imod:objz', 'ifloordiv:arrz', 'set:bm:num', 'set:mi:num', 'insd:t', 'deld:t', 'hold:arr', 'unheld', 'shun:am0:ns', 's:insd', 's:units:o'],
     'S0': _CQ + ['iadd:num', 'imul:num', 'iadd:objm', 'set:all:num', 'set:sl:objm', 'insd:t', 'shun:arr', 'ro'],
     'S0d': _CQ + ['iadd:num', 'isub:arr', 'imul:num', 'itruediv:num', 'imod:num', 'ifloordiv:num', 'imod:objz', 'itruediv:objzd', 'deld:t', 'units:km', 'ro', 'ro:nr', 'q:plus1'],
     'S3d': _CQ + ['set:sl:badT', 'imul:bad', 'iadd:num', 'imul:num', 'iadd:objd', 'imul:objm', 'set:0:masked', 'delds', 'ro', 'ro:nr', 'shun:arr', 'holdw', 'q:heldw'],
-    'S23m': _CQ + ['set:sl:badT', 'set:bm:badT', 'set:0:num', 'set:sl:objm', 'iadd:objm', 'imul:objT', 'shun:arr', 'hold:arr', 'unheld', 's:insd', 's:deld:o', 'q:mod2', 'imod:arrz', 'itruediv:objz'],
+    'S23m': _CQ + ['set:sl:badT', 'set:bm:badT', 'set:0:num', 'set:sl:objm', 'iadd:objm', 'imul:objT', 'shun:arr', 'hold:arr', 'unheld', 'unheld:ns', 'hold:amm', 'shun:amm:ns', 's:insd', 's:deld:o', 'q:mod2', 'imod:arrz', 'itruediv:objz'],
     'I3': _CQ + ['iand:objm', 'ior:arr', 'ixor:obj', 'iadd:num', 'ifloordiv:obj', 'ifloordiv:objz', 'imod:objm', 'imod:zero', 'insd:t'],
     'I0d': _CQ + ['iand:bool', 'ior:objm', 'iadd:num', 'imul:num', 'deld:t', 'ro'],
     'B3': _CQ + ['set:sl:bad', 'iand:bad', 'iand:objm', 'ior:objm', 'ixor:objm', 'iand:bool', 'ior:arr', 'set:0:masked', 'shun:arr'],
@@ -232,6 +234,18 @@ def _antimask_arg(a):
     return np.array(True)
 
 
+def _am(a, kind):
+    """antimask arguments: arr (first element dropped), F, T, am0 (an ARRAY of False: nothing selected), amm (exactly
+    the masked elements selected: an entirely masked result)"""
+    if kind == 'arr': return _antimask_arg(a)
+    if kind == 'F': return False
+    if kind == 'T': return True
+    if kind == 'am0': return np.zeros(a._shape_, dtype=bool) if a._shape_ else np.array(False)
+    if kind == 'amm':
+        return np.broadcast_to(np.asarray(a._mask_, dtype=bool), a._shape_).copy() if a._shape_ else np.array(bool(a._mask_))
+    raise KeyError(kind)
+
+
 IOPS = {'iadd': operator.iadd, 'isub': operator.isub, 'imul': operator.imul, 'itruediv': operator.itruediv,
         'ifloordiv': operator.ifloordiv, 'imod': operator.imod, 'ipow': operator.ipow,
         'iand': operator.iand, 'ior': operator.ior, 'ixor': operator.ixor}
@@ -276,12 +290,13 @@ def apply_op(st, op):
         born = stale_entries(w, 'heldwod')
         return [canon_bools(w.antimask, w._shape_), canon_corners(w.corners), canon_obj(w, ro=False), ['stale'] + born]
     if h == 'shun':
-        am = {'arr': _antimask_arg(a), 'F': False, 'T': True}[p[1]]
+        am = _am(a, p[1])
         s = a.shrink(am)
-        r = s.unshrink(am, a._shape_)
+        # with `ns`: no shape= (an entirely masked result is then a shapeless masked object)
+        r = s.unshrink(am) if p[-1] == 'ns' else s.unshrink(am, a._shape_)
         return canon_obj(r, ro=False)
     if h == 'hold':
-        am = _antimask_arg(a)
+        am = _am(a, p[1])
         st['s'] = a.shrink(am); st['am'] = am
         # evidence for the classification of finding KF-C18-1 (never used to judge the property)
         st['held_state'] = canon_obj(a, ro=False)
@@ -297,6 +312,8 @@ def apply_op(st, op):
             st['now_reference'] = canon_obj(a.mask_where(np.logical_not(st['am'])), ro=False)
         except Exception:
             st['now_reference'] = None
+        if p[-1] == 'ns':
+            return canon_obj(st['s'].unshrink(st['am']), ro=False)
         return canon_obj(st['s'].unshrink(st['am'], a._shape_), ro=False)
     if h in IOPS:
         k = p[1]
@@ -914,7 +931,7 @@ def run_twins(objname, ops):
                     'history %s on %s: the new object returned by step %d (%s) is born with cached %s that differ from '
                     'recomputation from its own arrays' % (ops[:k + 1], objname, k, op, ans_on[k][-1][1:]))
         if ans_on[k] != ans_off[k]:
-            if op == 'unheld' and held_at is not None and kf_c18_1(k, ans_on, ans_off, snaps_on, snaps_off):
+            if op.startswith('unheld') and held_at is not None and kf_c18_1(k, ans_on, ans_off, snaps_on, snaps_off):
                 sig = 'twin-differs:unheld:original-mutated-after-shrink'
             else:
                 sig = 'twin-differs:%s:after:%s' % (op, last_mutator(ops, k))
